@@ -8,11 +8,19 @@ require (
 )
 
 require (
+	github.com/AstromechZA/etcpwdparse v0.0.0-20170319193008-f0e5f0779716 // indirect
+	github.com/BurntSushi/toml v1.2.0 // indirect
 	github.com/cloudflare/circl v1.6.1 // indirect
+	github.com/creack/pty v1.1.18 // indirect
 	github.com/google/go-cmp v0.5.9 // indirect
+	github.com/muesli/cancelreader v0.2.2 // indirect
 	github.com/pkg/errors v0.9.1 // indirect
+	github.com/sbinet/pstree v0.3.0 // indirect
+	goji.io v2.0.2+incompatible // indirect
 	golang.org/x/crypto v0.11.1-0.20230711161743-2e82bdd1719d // indirect
+	golang.org/x/exp v0.0.0-20221215174704-0915cd710c24 // indirect
 	golang.org/x/sys v0.30.0 // indirect
+	golang.org/x/term v0.10.0 // indirect
 	gotest.tools v2.2.0+incompatible // indirect
 )
 
